@@ -27,6 +27,9 @@ var g2lStd = map[string]stdFn{
 	"strings.LastIndex":      {"lastIndex", false},
 	"strings.Contains":       {"contains", false},
 	"strings.ContainsRune":   {"containsRune", false},
+	"strings.ContainsAny":    {"containsAny", false},
+	"bytes.TrimSpace":        {"trimSpace", false},
+	"strings.TrimSpace":      {"trimSpace", false},
 	"strings.TrimPrefix":     {"trimPrefix", false},
 	"strings.TrimSuffix":     {"trimSuffix", false},
 	"strings.Count":          {"count", false},
@@ -904,6 +907,13 @@ func (f *g2lFn) assignOne(lines *[]string, lhs ast.Expr, term string, lt types.T
 			op = "setIdx"
 		}
 		*lines = append(*lines, fmt.Sprintf("let %s ← %s %s %s %s", f.name(base), op, f.name(base), i, term))
+	case *ast.StarExpr:
+		// *p = v where p is a pointer parameter (an in-out parameter of the function)
+		if id, ok := l.X.(*ast.Ident); ok {
+			*lines = append(*lines, fmt.Sprintf("let %s := %s", f.name(id), term))
+			return
+		}
+		f.bad(lhs, "assignment through %s", show(lhs))
 	default:
 		f.bad(lhs, "assignment target %s", show(lhs))
 	}
